@@ -1,7 +1,6 @@
 package queues
 
 import (
-	"math"
 	"sync"
 	"sync/atomic"
 
@@ -39,15 +38,12 @@ func NewQueue[T any]() *Queue[T] {
 
 // Len returns the total number of items in the queue
 func (q *Queue[T]) Len() int {
-	writeCount := q.writeCount.Load()
-	readCount := q.readCount.Load()
+	// both counters only change under the write lock (Enqueue, Dequeue, Purge),
+	// so reading them under the read lock yields a consistent pair
+	q.mx.RLock()
+	defer q.mx.RUnlock()
 
-	if writeCount < readCount {
-		// The writeCount counter wrapped around
-		return int(math.MaxUint64 - readCount + writeCount)
-	}
-
-	return int(writeCount - readCount)
+	return int(q.writeCount.Load() - q.readCount.Load())
 }
 
 // Enqueue adds an item to the back of the queue
